@@ -10,6 +10,8 @@ import traceback
 
 VERIF = os.path.dirname(os.path.dirname(os.path.abspath(__file__)))
 REPO = os.environ.get('VF_REPO', '/repo')
+# where evidence/ and out/ are written: /verif itself, or a scratch directory for runs against a changed tree (tools/)
+OUTROOT = os.environ.get('VF_OUT') or VERIF
 MAX_VIOL_PER_SHARD = 25
 MAX_ARTEFACTS = 12
 
@@ -183,7 +185,7 @@ def finish(prop, tier, seed, t0, stats, coverage, assumptions, quiet=False):
     """Classify violations, write artefacts + evidence, print verdict lines.
     Returns the process exit code."""
     findings = load_findings()
-    outdir = os.path.join(VERIF, 'out', prop)
+    outdir = os.path.join(OUTROOT, 'out', prop)
     os.makedirs(outdir, exist_ok=True)
     for fn in os.listdir(outdir):
         if fn.endswith('.json'):
@@ -245,8 +247,8 @@ def finish(prop, tier, seed, t0, stats, coverage, assumptions, quiet=False):
         'coverage': cov, 'assumptions': assumptions, 'wall_s': round(wall, 2),
         'violations': len(fresh),
     }
-    os.makedirs(os.path.join(VERIF, 'evidence'), exist_ok=True)
-    with open(os.path.join(VERIF, 'evidence', prop + '.json'), 'w') as f:
+    os.makedirs(os.path.join(OUTROOT, 'evidence'), exist_ok=True)
+    with open(os.path.join(OUTROOT, 'evidence', prop + '.json'), 'w') as f:
         json.dump(ev, f, indent=1, sort_keys=True, default=repr)
         f.write('\n')
     for ln in lines:
